@@ -832,12 +832,19 @@ func c23Retry(f func() error) error {
 // call), so per-batch state that does not survive a long outage is observable.
 func TestVerif_C23_LongOutage(t *testing.T) {
 	rec := vstat.New(t, "C23", "long-outage",
-		"rapid (1 case in quick: each costs ~35 s): role {leader, follower} x outage of 31-34 failed apply attempts {not leader, leadership lost, leader unknown} x 2-3 queued requests, one of them posted in the middle of the outage; oracle: after the outage every accepted statement is applied in acceptance order, and no apply attempt arrives with an expired context; non-trivial = always; distinct by plan")
-	rapid.Check(t, func(rt *rapid.T) {
-		follower := rapid.Bool().Draw(rt, "follower")
-		n := rapid.IntRange(31, 34).Draw(rt, "failed-attempts")
-		kind := rapid.SampledFrom([]string{"not-leader", "leadership-lost", "no-leader"}).Draw(rt, "failure")
-		nreq := rapid.IntRange(2, 3).Draw(rt, "requests")
+		"seeded pseudo-random, not rapid (a failing 35 s case must not be re-run by a shrinker); 1 case in quick, 6 per process in thorough: role {leader, follower} x outage of 31-34 failed apply attempts {not leader, leadership lost, leader unknown} x 2-3 queued requests, one of them posted in the middle of the outage; oracle: after the outage every accepted statement is applied in acceptance order, and no apply attempt arrives with an expired context; non-trivial = always; distinct by plan")
+	rng := rand.New(rand.NewSource(int64(vstat.Seed())))
+	for ci, cases := 0, vstat.Scale(1, 6); ci < cases && !t.Failed(); ci++ {
+		c23LongOutageCase(t, rec, rng)
+	}
+}
+
+func c23LongOutageCase(rt *testing.T, rec *vstat.Rec, rng *rand.Rand) {
+	{
+		follower := rng.Intn(2) == 0
+		n := 31 + rng.Intn(4)
+		kind := []string{"not-leader", "leadership-lost", "no-leader"}[rng.Intn(3)]
+		nreq := 2 + rng.Intn(2)
 		canon := fmt.Sprintf("follower=%v outage=%d x %s requests=%d", follower, n, kind, nreq)
 		rec.Case(true, canon)
 		rec.Sample(canon)
@@ -913,5 +920,5 @@ func TestVerif_C23_LongOutage(t *testing.T) {
 			}
 			time.Sleep(50 * time.Millisecond)
 		}
-	})
+	}
 }
